@@ -197,6 +197,20 @@ CLAIMED['C10'] = dict(
           "exact rational vm_compute correspondence with SplineGroove, surface part by identities measured on real Roll objects."),
     ref="DESIGN.md section 4 C10")
 
+CLAIMED['C03'] = dict(
+    technique="Coq proofs over R about tables regenerated from generic_elongation.py (T-D): block-ordering lemma for the sampling loop with abstract isclose guards, mirror/list lemmas, tangent-corner lemma (nsatz); string model of the by-name factory; search over the constructors",
+    text=("For every parameter vector satisfying `wellformed` with a positive face pad, every sampling density and every outcome of the "
+          "isclose guards (only reflexivity of isclose is used): the polyline is strictly increasing in z, hence single valued and simple; "
+          "it is mirror symmetric unconditionally; flank and face line meet in (usable_width/2, 0) with the r1 arc tangent to both; the "
+          "centre vertex is (0, depth - indent).  By-name factory: any rendering of a name (separators anywhere, any case) resolves like "
+          "the name; every class of the live namespace is found with and without the Groove suffix.  Partial: that the constructors reject "
+          "everything that is not well-formed, y >= 0 of all vertices, deepest point = depth and reproduction of requested values are "
+          "decided by the search over the implementation (catalogue x pad angles, perturbations 0.02..50x, negative/NaN/inf, too few / "
+          "too many defining values, 16 None-patterns of the generic class), not by a theorem."),
+    note=("Trusted: Coq kernel; Reals axioms; translator T-D (validated on every catalogue groove); ByName.v hand-written (ASCII part of "
+          "\\s and str.lower), tied by vm_compute correspondence on rendered names; class list read from the live namespace."),
+    ref="DESIGN.md section 4 C03")
+
 NOT_YET = {}
 
 
